@@ -35,7 +35,7 @@ func seekTS(id, secret string, ts uint32, wantNUL bool) uint32 {
 
 func VH_C15_login() {
 	id := vStringUpTo("acc", 8)
-	secret := vStringUpTo("secret", vParam("maxsecret"))
+	secret := c15Secret()
 	vAssume(vNoNUL(id))
 	vAssume(vNoNUL(secret))
 	ts := vU32("ts")
@@ -62,7 +62,7 @@ func VH_C15_login() {
 
 func VH_C15_newlogin() {
 	id := vStringUpTo("acc", 8)
-	secret := vStringUpTo("secret", vParam("maxsecret"))
+	secret := c15Secret()
 	vAssume(vNoNUL(id))
 	vAssume(vNoNUL(secret))
 	p := NewLogin(id, secret, vU32("seq"))
@@ -84,4 +84,13 @@ func VH_C15_login_resp() {
 	vKnown("KF-authenticator-cut-at-nul", "C15.smgp30.resp.client-verifies", vAnyZero([]byte(server)))
 	vAssert("C15.smgp30.resp.client-verifies", q.AuthenticatorServer == server)
 	vReach("end")
+}
+
+// the shared secret: every string of 0..maxsecret octets, or (fixsecret > 0) every string of
+// exactly that many octets
+func c15Secret() string {
+	if n := vParam("fixsecret"); n > 0 {
+		return vString("secret", n)
+	}
+	return vStringUpTo("secret", vParam("maxsecret"))
 }
